@@ -1,4 +1,5 @@
 import BV.Gen.LedgerSkel
+import BV.Lemmas.AllocSkelChk
 /-!
 # C09, the temporaries inside one `encode_data` call: generated allocation skeletons are balanced
 
@@ -18,8 +19,9 @@ EVERY path — any branch choice, any loop count, any early return, any allocati
 code changes the generated value and this theorem no longer holds (`decide` fails); a refactoring that
 keeps the balance keeps it true; a function the extractor cannot read becomes `opaque` (listed in
 `BV.Gen.skelUnavailable`; for those the run-time check of the `ledger` stage still decides).
-The meaning of the checker's verdict — soundness w.r.t. the path semantics `BV.Skel.run` on a ledger — is
-`BV/Lemmas/AllocSkelChk.lean` (`chk_sound`, `balanced_sound`).
+The meaning of the checker's verdict is proved once and for all in `BV/Lemmas/AllocSkelChk.lean` (`chk_sound`:
+the checker is sound for the path semantics `BV.Skel.run`, for every script); `skeleton_balanced` below puts
+the two together.
 -/
 namespace BV.Props.C09Skel
 open BV.Skel
@@ -37,6 +39,33 @@ def rootOk (r : String × Nat × List Nat) : Bool :=
 
 /-- **skeletons_balanced**: every allocation skeleton generated from the current tree passes the checker -/
 theorem skeletons_balanced : BV.Gen.skelRoots.all rootOk = true := by decide +kernel
+
+/-- **skeleton_balanced**: for every generated root that has a skeleton, on EVERY path (`sc` = any script of
+    branch choices, loop counts, zero-length allocations) through the expanded skeleton, started with no
+    tracked place holding a block: no block is lost (nothing overwritten, no local leaves its scope holding
+    a block — early returns included), and whatever is still held at the exit sits under one of the
+    root's declared out-parameters (none for `WriteMetaBlockInternal`: there the store is empty again) -/
+theorem skeleton_balanced (r : String × Nat × List Nat) (hr : r ∈ BV.Gen.skelRoots) (sk : Sk)
+    (hsk : rootSk r = some sk) (s : St) (hs : s.store = []) (sc : List Nat) :
+    (run sk (s, sc)).st.lost = s.lost ∧
+    ∀ p ∈ (run sk (s, sc)).st.store, ∃ a, p.1.head? = some a ∧ a ∈ r.2.2 := by
+  have h := List.all_eq_true.mp skeletons_balanced r hr
+  simp only [rootOk, hsk] at h
+  exact balancedEsc_sound r.2.2 sk h s hs sc
+
+/-- the roots without out-parameters end with an empty store: every block allocated on the path was freed
+    on the path -/
+theorem skeleton_balanced_closed (r : String × Nat × List Nat) (hr : r ∈ BV.Gen.skelRoots) (he : r.2.2 = [])
+    (sk : Sk) (hsk : rootSk r = some sk) (s : St) (hs : s.store = []) (sc : List Nat) :
+    (run sk (s, sc)).st.lost = s.lost ∧ (run sk (s, sc)).st.store = [] := by
+  obtain ⟨h1, h2⟩ := skeleton_balanced r hr sk hsk s hs sc
+  refine ⟨h1, ?_⟩
+  cases hst : (run sk (s, sc)).st.store with
+  | nil => rfl
+  | cons p rest =>
+    obtain ⟨a, _, ha⟩ := h2 p (by rw [hst]; exact List.mem_cons_self)
+    rw [he] at ha
+    cases ha
 
 /-- the expansion left no call behind (the inlining depth suffices) -/
 def callFree : Sk → Bool
